@@ -52,11 +52,24 @@ func matchKnown(known []knownEntry, prop string, v *chain.Violation) *knownEntry
 		if !v.HasProp(k.Property) {
 			continue
 		}
-		if strings.HasPrefix(v.Shape, k.Shape) && (k.Check == "" || k.Check == v.Check) {
+		if strings.HasPrefix(v.Shape, k.Shape) && checkMatches(k.Check, v.Check) {
 			return k
 		}
 	}
 	return nil
+}
+
+// checkMatches: a known entry may list several check ids separated by '|' (symptoms of one defect).
+func checkMatches(list, check string) bool {
+	if list == "" {
+		return true
+	}
+	for _, c := range strings.Split(list, "|") {
+		if c == check {
+			return true
+		}
+	}
+	return false
 }
 
 type aggregate struct {
@@ -324,7 +337,7 @@ func replayWitnesses(prop string, known []knownEntry, agg *aggregate) ([]string,
 		hit := false
 		var other *chain.Violation
 		for _, v := range res.Violations {
-			if v.Check == k.Check && (k.Shape == "" || strings.HasPrefix(v.Shape, k.Shape)) {
+			if checkMatches(k.Check, v.Check) && (k.Shape == "" || strings.HasPrefix(v.Shape, k.Shape)) {
 				hit = true
 			} else if v.HasProp(prop) && other == nil {
 				other = v
@@ -349,7 +362,7 @@ func replayWitnesses(prop string, known []knownEntry, agg *aggregate) ([]string,
 			if hit || other != nil {
 				v := other
 				for _, x := range res.Violations {
-					if x.Check == k.Check {
+					if checkMatches(k.Check, x.Check) {
 						v = x
 					}
 				}
